@@ -55,6 +55,26 @@ CHECKS: dict[str, tuple[str, str, str, str]] = {
         " with a frozen defect model.",
         "DESIGN.md §3 C17",
     ),
+    "C02": (
+        "constant folding of reader/writer tables + regex syntax-tree shape + language-intersection emptiness + path tabulation",
+        "Decides necessary structural conditions of exact tag reading: every multi-line terminator of the 29 folded"
+        " comment styles and the special endings belong to L(_END_PATTERN); the tag patterns have the shape"
+        " ^(.*?)TAG:[ \\t]+(.*?)END; no string of the SPDX-expression language ends in a terminator or in a mirrored"
+        " line prefix (automata intersection, witness reported); the yielded value passes only through strip() and the"
+        " guarded frame slice; the 4 KiB / snippet / seek(0) table, parse-error => empty info, replace-decoding."
+        " Free-text holders ending in a terminator and regex backtracking details are not decided.",
+        "Trusted: ast, re._parser, sa/fold.py, sa/relang.py, sa/tab.py. The order hazard in _END_PATTERN is decided under C14.",
+        "DESIGN.md §3 C02",
+    ),
+    "C12": (
+        "interval lint on str.index results + branch-table tabulation against the specified table + filter-first dataflow",
+        "Decides that no str.index/find result whose range includes 0 is tested by truthiness (package-wide), that"
+        " which part filter_ignore_block keeps depends only on marker presence/order exactly as specified (joint"
+        " decision-tree exploration; dependence on any other condition is a violation), and that every tag search"
+        " runs on the filtered text. The slice arithmetic itself (string indices for every interleaving) is not decided.",
+        "Trusted: ast, sa/tab.py, sa/fold.py.",
+        "DESIGN.md §3 C12",
+    ),
 }
 
 PENDING_REASON = "check not implemented yet (build in progress; see DESIGN.md §7)"
